@@ -24,7 +24,7 @@ class C05(Check):
     pid = "C05"
     title = "no valid schedule is lost"
     props = frozenset()
-    quick_runs = 1500
+    quick_runs = 2200
     thorough_runs = 40000
     nontrivial_rule = "at least one reference-VALID candidate schedule was pinned on a solve() of the real solver and the admission was judged"
     expected_probes = ["mode:enumerated", "mode:sampled", "pin_admitted", "unpinned_solve_judged", "has:optional", "has:select", "has:buffer"]
@@ -37,8 +37,11 @@ class C05(Check):
             kinds = rng.sample(kinds, 3)
         elif r < 0.6:
             kinds = []
-        if rng.random() < 0.06:
+        r = rng.random()
+        if r < 0.06:
             return gen.profile(**gen.FOCUS["interrupted"])
+        if r < 0.18:
+            return gen.profile(**gen.FOCUS["resource-rules"])
         return gen.profile(
             n_tasks=(1, 4 if big else 3), p_optional=0.3, p_zero=0.12, p_variable=0.3, p_release=0.25, p_due=0.25, n_workers=(0, 3),
             p_cumulative=0.15, p_select=0.45, p_assign=0.7, p_dynamic=0.15, p_delayed=0.15, p_work=0.25, p_horizon=0.9, slack=(0, 4),
